@@ -109,6 +109,10 @@ func genReq(t *rapid.T) Req {
 			q.RangeEnd = rapid.SampledFrom([][]byte{{0}, []byte("c"), []byte("zz")}).Draw(t, "end")
 		}
 		q.Limit = int64(rapid.IntRange(0, 3).Draw(t, "limit"))
+		if rapid.IntRange(0, 5).Draw(t, "hugelimit") == 0 {
+			// any positive limit is valid, also absurdly large ones
+			q.Limit = rapid.SampledFrom([]int64{1<<31 - 1, 1 << 31, 1 << 40, 1<<63 - 1}).Draw(t, "huge")
+		}
 		q.Linearizable = rapid.Bool().Draw(t, "lin")
 		switch rapid.IntRange(0, 3).Draw(t, "flags") {
 		case 0:
@@ -218,6 +222,9 @@ func genReq(t *rapid.T) Req {
 					rg := &regattapb.RequestOp_Range{Key: genKey(t, label+".k")}
 					if rapid.Bool().Draw(t, label+".isrange") {
 						rg.RangeEnd = []byte{0}
+						if rapid.IntRange(0, 5).Draw(t, label+".hugelimit") == 0 {
+							rg.Limit = rapid.SampledFrom([]int64{1 << 31, 1 << 40, 1<<63 - 1}).Draw(t, label+".huge")
+						}
 					}
 					ops = append(ops, &regattapb.RequestOp{Request: &regattapb.RequestOp_RequestRange{RequestRange: rg}})
 				case 1:
@@ -252,9 +259,20 @@ func genReq(t *rapid.T) Req {
 				defects = append(defects, defect{"nested-put-value-too-big", 0})
 			}
 			op := &regattapb.RequestOp{Request: &regattapb.RequestOp_RequestPut{RequestPut: bad}}
-			// place it in both branches so that it is on the executed path whatever the predicates say
-			q.Success = append(q.Success, op)
-			q.Failure = append(q.Failure, op)
+			// place it in both branches so that it is on the executed path whatever the predicates say; its position varies and
+			// it may follow an operation with an unset oneof (which the state machine skips)
+			place := func(ops []*regattapb.RequestOp) []*regattapb.RequestOp {
+				switch rapid.IntRange(0, 3).Draw(t, "nestedpos") {
+				case 0:
+					return append([]*regattapb.RequestOp{op}, ops...)
+				case 1:
+					return append([]*regattapb.RequestOp{{}, op}, ops...)
+				default:
+					return append(ops, op)
+				}
+			}
+			q.Success = place(q.Success)
+			q.Failure = place(q.Failure)
 		} else if inject > 0 && rapid.IntRange(0, 5).Draw(t, "hostileop") == 0 {
 			// shapes the documentation does not rule on (nested reads with odd options, empty oneof): only liveness is asserted
 			hostile = true
